@@ -172,10 +172,37 @@ def gen(rng, tier):
         N = 280
     for _ in range(N):
         add(rng.choice(DTYPES), rng.choice(LAYOUTS), rng.choice(VALS), rng.choice(TARGETS))
+    # several tensors in ONE file that share dtype, shape and memory image but differ in layout (W and W.T),
+    # and genuinely equal tensors
+    for _ in range(12 if tier == "quick" else 150):
+        cases.append({"kind": "pair", "cls": "pair", "field": "*", "dt": rng.choice(["float32", "float64", "int16", "complex64", "bool"]),
+                      "shape": [rng.choice([2, 3, 4])] * 2, "layout": "T", "val": "random", "target": rng.choice(TARGETS),
+                      "seed": rng.randrange(2 ** 30)})
     return cases
 
 
+def pair_recipe(c):
+    n = c["shape"][0]
+    W = raw_values(c["dt"], n * n, "random", c["seed"]).reshape(n, n)
+    return {"k": "NIRGraph", "nodes": {
+        "a": {"k": "LIF", "args": {"tau": W, "r": W.T, "v_leak": W.copy(), "v_threshold": np.ascontiguousarray(W.T)}},
+        "b": {"k": "Linear", "args": {"weight": W.T}},
+        "c": {"k": "Linear", "args": {"weight": W}},
+        "d": {"k": "Scale", "args": {"scale": W[::-1].T}}}, "edges": []}
+
+
+def all_arrays(g):
+    out = []
+    for name, n in g.nodes.items():
+        for f in ("tau", "r", "v_leak", "v_threshold", "weight", "scale"):
+            if hasattr(n, f):
+                out.append(getattr(n, f))
+    return out
+
+
 def get_field(g, c):
+    if c["cls"] == "pair":
+        return all_arrays(g)
     n = g.nodes["n"]
     if c["cls"] == "meta":
         return [n.metadata["blob"], n.metadata["sub"]["deep"]]
@@ -186,8 +213,12 @@ def get_field(g, c):
 
 def run(c):
     import nir
-    arr = make_array(c)
-    r = recipe_with(c, arr)
+    if c["cls"] == "pair":
+        arr = None
+        r = pair_recipe(c)
+    else:
+        arr = make_array(c)
+        r = recipe_with(c, arr)
     sig = (c["cls"], c["field"], c["dt"], tuple(c["shape"]), c["layout"], c["val"], c["target"])
     if r is None:
         return Outcome(None, None, False, ("skip",) + sig)
